@@ -18,7 +18,7 @@ LEVEL = "exploration"
 SHARDS = {"quick": 16, "thorough": 16}
 MUST = ["spline.order0", "spline.order1", "poly", "context.first-of-several", "context.none-match-default", "context.none-match-nodefault",
         "enum.listed", "enum.unlisted", "bool", "time.scaled", "query.at-last-knot", "query.at-first-knot", "query.outside-noextrap",
-        "route.ctor", "route.xml", "calibrate.contract_evaluations"]
+        "route.ctor", "route.xml", "calibrate.contract_evaluations", "enum.wide"]
 RULE = ("case = (parameter type IR, earlier parameter values, field bits, bit offset, construction route); parse_value's "
         "result is compared with the reference decoder for derived value (|lib-exact| <= 1e-9*max(1, sum|terms|)), "
         "class, raw_value and cursor; expected failures must fail (CalibrationError for out-of-range splines). "
@@ -372,4 +372,21 @@ def run(ctx):
                         ctx.count("enum.listed" if kind == "enumerated" else "bool")
                         ctx.sig(kind, "uncomputable-calibrator", calname(cal), as_context, route, raw == 0)
                         run_case(ctx, F, t, {"MODE": ("int", 1, 1)}, raw, rng.randrange(8), route, rng, {})
+
+    # ---- 6. wide integer enumerations: listed values that a double cannot hold must stay distinct keys --------------------
+    big = [2 ** 53 + 1, 2 ** 53 + 2, 2 ** 63 - 1, 2 ** 63 + 5, 0xFFFFFFFFFFFFFFFF, 0x1ACFFC1D1ACFFC1D, 7]
+    t = ir.PType("T", "enumerated", ir.IntEnc(64, "unsigned"), None, tuple((v, f"K{j}") for j, v in enumerate(big)))
+    ts = ir.PType("T", "enumerated", ir.IntEnc(64, "twosComplement"), None, ((-(2 ** 62) - 1, "NEG"), (-(2 ** 53) - 1, "NEG53"), (2 ** 62 + 1, "POS")))
+    for tt in (t, ts):
+        for route in routes:
+            item += 1
+            if not ctx.mine(item):
+                continue
+            lib = F.make(tt, route)
+            vals = [v for v, _ in tt.enumeration]
+            for v in vals + [vals[0] + 1 if vals[0] + 1 not in vals else vals[0] + 3, vals[-1] - 1]:
+                ctx.count("enum.listed" if v in vals else "enum.unlisted")
+                ctx.count("enum.wide")
+                ctx.sig("enumerated", "wide-int", tt.enc.encoding, route, v in vals)
+                run_case(ctx, F, tt, {}, v, rng.randrange(8), route, rng, {"_lib": lib})
 
